@@ -23,10 +23,10 @@ import (
 // Exit codes of the worker.
 const (
 	ExitOK         = 0
-	ExitViolation  = 1 // replay: the recorded class was reproduced
-	ExitTrouble    = 2 // harness trouble
-	ExitRestart    = 3 // run: stopped early (leaked goroutine / race report); resume after the last record
-	ExitOtherClass = 4 // replay: a violation of another class
+	ExitViolation  = 1  // replay: the recorded class was reproduced
+	ExitTrouble    = 20 // harness trouble (not 2: the Go runtime itself exits with 2 on fatal errors and unrecovered panics)
+	ExitRestart    = 3  // run: stopped early (leaked goroutine / race report); resume after the last record
+	ExitOtherClass = 4  // replay: a violation of another class
 )
 
 var registry []sim.Scenario
